@@ -4,7 +4,7 @@ import sys
 from .. import engine, gen
 from ..core import Rng
 from ..engine import Outcome
-from .base import PropBase, gen_run
+from .base import PropBase, gen_run, gen_project_mode
 from .execsim import run_pair, compare_runs, exec_candidates, describe_exec, gen_cmdline_suppressions
 
 
@@ -47,6 +47,24 @@ class C15(PropBase):
                "exitcode": rng.choice([None, 1, 37]), "subjects": subs, "channel": "text" if rng.chance(0.3) else "xml"}
         if any(s.get("loadavg") for s in subs):
             scn["opts"]["-l"] = "-l 1"
+        scn["project"] = gen_project_mode(rng, proj["units"], 0.2)
+        if rng.chance(0.15):
+            # a critical error (the unit cannot be analysed), suppressed in one of the documented ways, with and without --safety:
+            # in safety mode a suppressed critical error still decides the exit status
+            u = rng.choice(proj["units"])
+            chunk, eid = rng.choice([("void sx%d(void){ if ( }", "syntaxError"), ("#error stop %d", "preprocessorErrorDirective")])
+            chunk = chunk % rng.randint(100, 999)
+            how = rng.choice(["cmdline-file", "cmdline-file", "inline", "cmdline-global", "none"])
+            if how == "inline":
+                chunk = "// cppcheck-suppress %s\n%s" % (eid, chunk)
+                scn["opts"]["--inline-suppr"] = "--inline-suppr"
+            elif how != "none":
+                sup = "--suppress=%s:%s" % (eid, u) if how == "cmdline-file" else "--suppress=%s" % eid
+                if sup not in scn["suppr"]:
+                    scn["suppr"].append(sup)
+            scn["tree"][u] = scn["tree"][u] + [chunk]
+            if rng.chance(0.7):
+                scn["opts"]["--safety"] = "--safety"
         return scn
 
     def execute(self, scn, wd):
